@@ -70,7 +70,17 @@ def build_doc(n: int, edges: dict[tuple[int, int], str], order: tuple[int, ...],
         else:
             node = own
         schemas[me] = node
-        expect[me] = {"own": exp, "parents": parents}
+        expect[me] = {"own": exp, "parents": parents, "tighten": []}
+    # a later allOf member may tighten a property introduced by an earlier member: the child's own part requires the
+    # first property that only its (first) parent declares
+    for i in range(n):
+        me = names[i]
+        for pn in expect[me]["parents"][:1]:
+            only_parent = [k for k in expect[pn]["own"] if k not in expect[me]["own"]]
+            if only_parent and pn != me:
+                key = only_parent[0]
+                schemas[me]["allOf"][-1]["required"] = ["id", key]
+                expect[me]["tighten"].append(key)
     ordered = {names[i]: schemas[names[i]] for i in order}
     doc = {"openapi": "3.1.0" if openapi31 else "3.0.3", "info": {"title": "G", "version": "1"}, "paths": {},
            "components": {"schemas": ordered}}
@@ -91,6 +101,10 @@ def resolve_expected(expect: dict) -> dict[str, dict[str, tuple] | None]:
                 return None
             res.update(sub)
         res.update(expect[name]["own"])
+        for key in expect[name].get("tighten", []):
+            if key in res:
+                k, _, t = res[key]
+                res[key] = (k, True, t)
         return res
 
     for name in expect:
